@@ -12,7 +12,21 @@ use std::process::{Child, ChildStdin, ChildStdout, Command, Stdio};
 use std::sync::{Arc, Mutex};
 use std::time::Instant;
 
-pub const VERIF_DIR: &str = "/verif";
+/// root of the verification tree this binary belongs to (<root>/sim/target/<profile>/dsim), so that a
+/// snapshot started with `vp run` writes its evidence and replays into the snapshot, not into /verif
+pub fn verif_dir() -> String {
+    if let Ok(d) = std::env::var("DSIM_VERIF_DIR") {
+        return d;
+    }
+    if let Ok(exe) = std::env::current_exe() {
+        if let Some(root) = exe.ancestors().nth(4) {
+            if root.join("properties.jsonl").exists() {
+                return root.to_string_lossy().to_string();
+            }
+        }
+    }
+    "/verif".to_string()
+}
 
 #[derive(Default)]
 pub struct Collected {
@@ -356,7 +370,7 @@ pub struct Known {
 }
 
 pub fn load_known() -> Vec<Known> {
-    let path = format!("{}/known_findings.json", VERIF_DIR);
+    let path = format!("{}/known_findings.json", verif_dir());
     let text = match std::fs::read_to_string(&path) {
         Ok(t) => t,
         Err(_) => return vec![],
@@ -471,7 +485,7 @@ pub fn regenerate_case(prop: &dyn Prop, seed: u64, i: u64, avoid: &[String]) -> 
 }
 
 pub fn write_replay(prop: &dyn Prop, seed: u64, r: &Value, min: Option<&Minimised>, name_hint: &str) -> Result<PathBuf, String> {
-    let dir = format!("{}/replays", VERIF_DIR);
+    let dir = format!("{}/replays", verif_dir());
     std::fs::create_dir_all(&dir).map_err(|e| e.to_string())?;
     let path = PathBuf::from(format!("{}/{}-{}-{}.json", dir, prop.id(), seed, name_hint));
     let body = json!({
@@ -511,7 +525,7 @@ pub fn check(prop: &'static dyn Prop, opts: CheckOpts) -> i32 {
     // 1. replay every known witness
     for k in known.iter().filter(|k| k.status == "known") {
         if let Some(w) = &k.witness {
-            let path = format!("{}/{}", VERIF_DIR, w);
+            let path = format!("{}/{}", verif_dir(), w);
             match std::fs::read_to_string(&path).ok().and_then(|t| serde_json::from_str::<Value>(&t).ok()) {
                 Some(file) => match pool.eval_cases(&[file["case"].clone()]) {
                     Ok(rs) => {
@@ -699,7 +713,7 @@ pub fn check(prop: &'static dyn Prop, opts: CheckOpts) -> i32 {
         "wall_s": wall,
         "violations": violations.len(),
     });
-    let edir = format!("{}/evidence", VERIF_DIR);
+    let edir = format!("{}/evidence", verif_dir());
     let _ = std::fs::create_dir_all(&edir);
     let epath = format!("{}/{}.json", edir, prop.id());
     if let Err(e) = std::fs::write(&epath, serde_json::to_string_pretty(&evidence).unwrap()) {
